@@ -7,6 +7,7 @@
   * Part 2: sign of the slope at a forced bound (ordered field), optimality for convex objectives (ℝ).
 -/
 import SkyllhModel.Model.Minimizer
+import SkyllhModel.Model.MinimizerR7
 import SkyllhModel.Generated.C11
 import SkyllhModel.Proofs.RealScalar
 import Mathlib.Tactic
@@ -1869,3 +1870,214 @@ converged" (flag 1) — allowed by the property (a loud failure), shown here on 
 theorem c11_nr_last_step_conservative_witness :
     ∃ o, nr { C11.Examples.cfgZ with maxSteps := 2 } C11.Examples.objZ 6 = .ok o ∧ o.x = 0 ∧ o.niter = 2 ∧ o.flag = 1 :=
   ⟨_, rfl, rfl, rfl, rfl⟩
+
+/-! ## Round 7 -/
+
+open C11
+
+section r7_reeval
+variable {F : Type}
+
+/-- **re-evaluation takes the function value for every return shape**: the value is the first element of a
+tuple or list, the value itself otherwise; it fails (IndexError) exactly for an empty sequence. -/
+theorem c11_reeval_value (r : ObjRet F) :
+    (∀ v, reevalValue r = .ok v ↔ r.first? = some v) ∧ ((∃ e, reevalValue r = .error e) ↔ r.first? = none) := by
+  cases r with
+  | scalar v => simp [reevalValue, ObjRet.first?]
+  | tuple vs => cases vs <;> simp [reevalValue, ObjRet.first?]
+  | list vs => cases vs <;> simp [reevalValue, ObjRet.first?]
+
+variable [LT F] [DecidableLT F] [BEq F]
+
+/-- `wrapperRet` is `wrapper` whenever the objective returns a non-empty shape -/
+theorem c11_wrapper_ret_refines (attempt : Nat → Attempt F) (maxReps : Nat) (bounds : List (F × F))
+    (obj : List F → ObjRet F) (func : List F → F) (hf : ∀ x, (obj x).first? = some (func x)) :
+    wrapperRet attempt maxReps bounds obj = wrapper attempt maxReps bounds func := by
+  unfold wrapperRet
+  have h : (fun x => reevalValue (obj x)) = fun x => Except.ok (func x) := by
+    funext x
+    exact ((c11_reeval_value (obj x)).1 (func x)).mpr (hf x)
+  rw [h]
+  exact c11_wrapperE_refines attempt maxReps bounds func
+
+/-- **reported minimum = function value at the reported point, whatever the objective returns** (scalar,
+tuple or list of any length): after clipping, `fmin` is the function value inside what the objective returned at the
+clipped point; an objective returning an empty sequence makes the call raise — never a silent non-value. -/
+theorem c11_wrapper_ret_fmin (attempt : Nat → Attempt F) (maxReps : Nat) (bounds : List (F × F))
+    (obj : List F → ObjRet F) (o : WrapOut F) (h : wrapperRet attempt maxReps bounds obj = .ok o) :
+    (o.reevaluated = true → (obj o.x).first? = some o.f ∧ o.x = clipAll (attempt o.reps).x bounds) ∧
+    (o.reevaluated = false → o.x = (attempt o.reps).x ∧ o.f = (attempt o.reps).f) := by
+  unfold wrapperRet wrapperE at h
+  simp only [C11.wrapLoopE_refines] at h
+  obtain ⟨h1, _⟩ := wrapLoop_spec attempt maxReps 0
+  split_ifs at h with hc hn ha
+  · cases hv : reevalValue (obj (clipAll (wrapLoop attempt maxReps 0 (attempt 0)).1.x bounds)) with
+    | error e => rw [hv] at h; cases h
+    | ok v =>
+      rw [hv] at h
+      simp only [Except.ok.injEq] at h
+      subst h
+      refine ⟨fun _ => ⟨((c11_reeval_value _).1 v).mp hv, by rw [← h1]⟩, fun hh => by simp at hh⟩
+  · simp only [Except.ok.injEq] at h
+    subst h
+    exact ⟨fun hh => by simp at hh, fun _ => ⟨by rw [← h1], by rw [← h1]⟩⟩
+
+end r7_reeval
+
+/-! ### status → decision code at the literals of the current source -/
+
+/-- **nlopt timeouts are never convergence, for the window the source uses**: at the generated literals
+`lo < status < hi` accepts exactly the codes 1..4 and is the `crsSuccess` the wrapper theorems are about. -/
+theorem c11_crs_success_for_current_source (code : Int) :
+    (crsSuccessG Gen.C11.crsLo Gen.C11.crsHi code = true ↔ 1 ≤ code ∧ code ≤ 4) ∧
+    crsSuccessG Gen.C11.crsLo Gen.C11.crsHi code = crsSuccess code := by
+  refine ⟨?_, rfl⟩
+  have h : crsSuccessG Gen.C11.crsLo Gen.C11.crsHi code = true ↔ Gen.C11.crsLo < code ∧ code < Gen.C11.crsHi := by
+    simp [crsSuccessG]
+  rw [h]
+  simp only [Gen.C11.crsLo, Gen.C11.crsHi]
+  omega
+
+/-- the method lists of the source give the bounds treatment `c11_scipy_bounds_mode` is about -/
+theorem c11_scipy_bounds_for_current_source (m : String) :
+    scipyBoundsModeG Gen.C11.scipyNative Gen.C11.scipyConstr m = scipyBoundsMode m := by
+  simp only [scipyBoundsModeG, scipyBoundsMode, Gen.C11.scipyNative, Gen.C11.scipyConstr, List.contains_cons,
+    List.contains_nil, Bool.or_false, Bool.or_eq_true, beq_iff_eq]
+  by_cases h1 : m = "L-BFGS-B" <;> by_cases h2 : m = "TNC" <;> by_cases h3 : m = "SLSQP" <;>
+    by_cases h4 : m = "COBYLA" <;> simp [h1, h2, h3, h4, eq_comm]
+
+/-- flags and task needles of the source give the L-BFGS-B tables of `c11_impl_converged_iff`, and a status is
+never both converged and repeatable (the two flags differ) -/
+theorem c11_lbfgs_status_for_current_source (wf : Int) (task : String) :
+    lbfgsConvergedG Gen.C11.lbfgsConvFlag wf = lbfgsConverged wf ∧
+    lbfgsRepeatableG Gen.C11.lbfgsRepFlag Gen.C11.lbfgsNeedles wf task = lbfgsRepeatable wf task ∧
+    ¬ (lbfgsConvergedG Gen.C11.lbfgsConvFlag wf = true ∧
+       lbfgsRepeatableG Gen.C11.lbfgsRepFlag Gen.C11.lbfgsNeedles wf task = true) := by
+  refine ⟨rfl, ?_, ?_⟩
+  · simp [lbfgsRepeatableG, lbfgsRepeatable, Gen.C11.lbfgsRepFlag, Gen.C11.lbfgsNeedles]
+  · simp only [lbfgsConvergedG, lbfgsRepeatableG, Gen.C11.lbfgsConvFlag, Gen.C11.lbfgsRepFlag, Bool.and_eq_true,
+      beq_iff_eq]
+    omega
+
+/-- the convergence threshold of `NR1dNsMinimizerImpl.has_converged` in the source is the one of `nrConverged`:
+flags −2, −1, 0 are converged, flag 1 (max_steps) is not -/
+theorem c11_nr_converged_for_current_source {F : Type} (o : NROut F) :
+    nrConvergedG Gen.C11.nrConvThr o.flag = nrConverged o ∧
+    nrConvergedG Gen.C11.nrConvThr 1 = false ∧ nrConvergedG Gen.C11.nrConvThr (-2) = true := by
+  refine ⟨rfl, by decide, by decide⟩
+
+/-! ### `Minimizer(NR1dNsMinimizerImpl)` with any number of floating parameters -/
+
+section r7_layout
+variable {F : Type} [LinearOrder F]
+
+namespace C11
+
+theorem AllIn_get : ∀ (xs : List F) (bs : List (F × F)) (i : Nat) (v : F) (b : F × F),
+    AllIn xs bs → xs[i]? = some v → bs[i]? = some b → b.1 ≤ v ∧ v ≤ b.2
+  | [], [], _, _, _, _, hv, _ => by simp at hv
+  | [], _ :: _, _, _, _, h, _, _ => by simp [AllIn] at h
+  | _ :: _, [], _, _, _, h, _, _ => by simp [AllIn] at h
+  | x :: xs, b' :: bs, 0, v, b, h, hv, hb => by
+    simp only [List.getElem?_cons_zero, Option.some.injEq] at hv hb
+    subst hv hb
+    exact h.1
+  | x :: xs, b' :: bs, i + 1, v, b, h, hv, hb => by
+    simp only [List.getElem?_cons_succ] at hv hb
+    exact AllIn_get xs bs i v b h.2 hv hb
+
+theorem AllIn_set : ∀ (xs : List F) (bs : List (F × F)) (i : Nat) (v : F) (b : F × F),
+    AllIn xs bs → bs[i]? = some b → b.1 ≤ v → v ≤ b.2 → AllIn (xs.set i v) bs
+  | [], [], _, _, _, _, hb, _, _ => by simp at hb
+  | [], _ :: _, _, _, _, h, _, _, _ => by simp [AllIn] at h
+  | _ :: _, [], _, _, _, h, _, _, _ => by simp [AllIn] at h
+  | x :: xs, b' :: bs, 0, v, b, h, hb, h1, h2 => by
+    simp only [List.getElem?_cons_zero, Option.some.injEq] at hb
+    subst hb
+    simp only [List.set_cons_zero, AllIn]
+    exact ⟨⟨h1, h2⟩, h.2⟩
+  | x :: xs, b' :: bs, i + 1, v, b, h, hb, h1, h2 => by
+    simp only [List.getElem?_cons_succ] at hb
+    simp only [List.set_cons_succ, AllIn]
+    exact ⟨h.1, AllIn_set xs bs i v b h.2 hb h1 h2⟩
+
+end C11
+
+/-- **wrapper ∘ NR for any parameter layout**: the initials of a `ParameterSet` lie within their bounds; the NR
+implementation replaces component `ns_pidx` by its result and leaves the others alone, so the vector it reports is
+inside all bounds, `Minimizer.minimize` never clips / re-evaluates it (the 3-valued NR objective is never called by the
+wrapper), returns it with the NR minimum for flag ≤ 0 without any repetition, and raises for flag 1. -/
+theorem c11_wrapper_nr_n [Add F] [Neg F] [Div F] [OfNat F 0] [OfNat F 1]
+    (c : NRCfg F) (obj : F → Eval F) (initials : List F) (bounds : List (F × F)) (nsIdx : Nat) (ns0 : F)
+    (r : NROut F) (x : List F) (hinit : AllIn initials bounds) (hidx : initials[nsIdx]? = some ns0)
+    (hbd : bounds[nsIdx]? = some (c.nsMin, c.nsMax)) (hnr : nr c obj ns0 = .ok r)
+    (hx : nrLayout initials nsIdx r.x = some x) (maxReps : Nat) (more : Nat → Attempt F) (func : List F → F) :
+    let attempt : Nat → Attempt F := fun k =>
+      if k = 0 then { x := x, f := r.f, converged := nrConverged r, repeatable := false } else more k
+    AllIn x bounds ∧
+    (r.flag ≤ 0 → wrapper attempt maxReps bounds func = .ok { x := x, f := r.f, reps := 0, reevaluated := false }) ∧
+    (r.flag = 1 → ∃ e, wrapper attempt maxReps bounds func = .error e) := by
+  intro attempt
+  have h0 := C11.AllIn_get initials bounds nsIdx ns0 _ hinit hidx hbd
+  have hin := (c11_nr_in_bounds c obj ns0 r hnr (le_trans h0.1 h0.2) h0.2).1
+  have hxin : AllIn x bounds := by
+    unfold nrLayout at hx
+    split_ifs at hx
+    simp only [Option.some.injEq] at hx
+    subst hx
+    exact C11.AllIn_set initials bounds nsIdx r.x _ hinit hbd hin.1 hin.2
+  have hloop : wrapLoop attempt maxReps 0 (attempt 0) = (attempt 0, 0) := by
+    cases maxReps with
+    | zero => rfl
+    | succ n => simp [wrapLoop, attempt]
+  have hlen : ∀ (xs : List F) (bs : List (F × F)), AllIn xs bs → xs.length = bs.length := by
+    intro xs
+    induction xs with
+    | nil => intro bs hh; cases bs with
+      | nil => rfl
+      | cons b bs => simp [AllIn] at hh
+    | cons y ys ih => intro bs hh; cases bs with
+      | nil => simp [AllIn] at hh
+      | cons b bs => simp only [AllIn] at hh; simp [ih bs hh.2]
+  refine ⟨hxin, ?_, ?_⟩
+  · intro hfl
+    unfold wrapper
+    simp only [hloop]
+    have hconv : (attempt 0).converged = true := by simp [attempt, nrConverged, hfl]
+    rw [if_neg (by simp [hconv]), if_neg (by simp [C11.hasNaN_false])]
+    have hany : anyOut (attempt 0).x bounds = false := by
+      have : (attempt 0).x = x := by simp [attempt]
+      rw [this]
+      exact (anyOut_false_iff _ _ (hlen _ _ hxin)).mpr hxin
+    rw [if_neg (by simp [hany])]
+    simp [attempt]
+  · intro hfl
+    unfold wrapper
+    simp only [hloop]
+    have hconv : (attempt 0).converged = false := by simp [attempt, nrConverged, hfl]
+    rw [if_pos (by simp [hconv])]
+    exact ⟨_, rfl⟩
+
+/-- non-vacuity: three parameters `[δ, ns, γ]`, `ns_pidx = 1`, NR on `(x−2)²` from 6 (the run of `C11.Examples`) -/
+example : nrLayout [(-1 : ℤ), 6, 3] 1 2 = some [-1, 2, 3] ∧ AllIn [(-1 : ℤ), 6, 3] [(-5, 5), (0, 10), (1, 4)] ∧
+    nrLayout [(-1 : ℤ), 6, 3] 3 2 = none := by
+  refine ⟨by decide, ?_, by decide⟩
+  simp [AllIn]
+
+end r7_layout
+
+/-- non-vacuity of the re-evaluation theorems: a list-returning objective, attempt above the bound, is clipped and
+re-evaluated to the function value; an empty tuple raises -/
+example : (wrapperRet (fun _ => ({ x := [7], f := 0, converged := true, repeatable := false } : Attempt ℤ)) 2 [(0, 5)]
+      (fun x => .list [x.sum * x.sum, 2 * x.sum])).toOption.map (fun o => (o.x, o.f, o.reevaluated)) = some ([5], 25, true) ∧
+    (wrapperRet (fun _ => ({ x := [7], f := 0, converged := true, repeatable := false } : Attempt ℤ)) 2 [(0, 5)]
+      (fun _ => .tuple [])).toOption.isNone = true := by
+  decide
+
+/-- **every implementation of the package gets the objective it unpacks**: `TCLLHRatio.maximize` hands the three-valued
+Newton objective exactly to the NR implementations (and their subclasses) and the `(value, gradients)` objective to all
+others, so no implementation of the package ever unpacks an objective of the wrong arity. -/
+theorem c11_maximize_dispatch (k : ImplKind) :
+    (maximizePath k = .newton ↔ k = .nr1d ∨ k = .nrScan) ∧
+    ∀ n, implUnpacks k = some n → objectiveArity (maximizePath k) = n := by
+  cases k <;> simp [maximizePath, implUnpacks, objectiveArity]
